@@ -20,6 +20,7 @@ import (
 	"strconv"
 	"strings"
 	"sync"
+	"sync/atomic"
 	"syscall"
 	"time"
 
@@ -38,7 +39,7 @@ type entryIn struct {
 	Mode    uint32 `json:"mode"`    // permission bits (file, dir)
 	Content string `json:"content"` // file: probe | text | script | wasm
 	Target  string `json:"target"`  // symlink: probe (executable probe) | noexec (probe, mode 0644) | dir | missing | text
-	Behave  string `json:"behave"`  // what a probe started under this name does: ok|exit|hang|cfgfail|syncfail|die|idleclose|idleexit
+	Behave  string `json:"behave"`  // what a probe started under this name does: ok|exit|hang|drop|cfgfail|syncfail|die|idleclose|idleexit
 }
 
 type dropinIn struct {
@@ -92,7 +93,7 @@ func behaveOf(name string) string {
 	if len(base) >= 3 && base[2] == '-' {
 		base = base[3:]
 	}
-	for _, m := range []string{"ok", "exit", "hang", "cfgfail", "syncfail", "die", "idleclose", "idleexit"} {
+	for _, m := range []string{"ok", "exit", "hang", "drop", "cfgfail", "syncfail", "die", "idleclose", "idleexit"} {
 		if strings.HasPrefix(base, m) {
 			return m
 		}
@@ -729,6 +730,8 @@ func Run(o *hx.Opts, w *lineio.Writer) error {
 	}
 	obs := make([]dirObs, len(inputs))
 	errs := make([]error, len(inputs))
+	skipped := make([]bool, len(inputs))
+	var nBlocked atomic.Int64
 	var wg sync.WaitGroup
 	t1 := time.Now()
 	for k := 0; k < nw; k++ {
@@ -736,6 +739,12 @@ func Run(o *hx.Opts, w *lineio.Writer) error {
 		go func(k int) {
 			defer wg.Done()
 			for i := k; i < len(inputs); i += nw {
+				if nBlocked.Load() >= 3 {
+					// circuit breaker: the implementation evidently hangs; what has been recorded
+					// suffices as failing input, every further hanging case costs its full deadline
+					skipped[i] = true
+					continue
+				}
 				base := filepath.Join(o.Scratch, fmt.Sprintf("d%d", i))
 				// a Start / request / Stop that never returns is an observation, not a harness failure
 				type res struct {
@@ -751,7 +760,8 @@ func Run(o *hx.Opts, w *lineio.Writer) error {
 				case r := <-ch:
 					obs[i], errs[i] = r.o, r.err
 					os.RemoveAll(filepath.Join(base, "plugins"))
-				case <-time.After(4 * time.Minute):
+				case <-time.After(2 * time.Minute):
+					nBlocked.Add(1)
 					obs[i] = dirObs{Start: "blocked", Log: []logLine{}, Noise: []string{}, Probes: []probeObs{}}
 				}
 			}
@@ -766,6 +776,9 @@ func Run(o *hx.Opts, w *lineio.Writer) error {
 	el := time.Since(t1)
 	launched := 0
 	for i, in := range inputs {
+		if skipped[i] {
+			continue
+		}
 		launched += len(obs[i].Probes)
 		w.Put(&lineio.Case{ID: ids[i], In: in, Obs: obs[i]})
 	}
